@@ -170,8 +170,9 @@ fn cmd_check(id: &str, tier: &str) -> i32 {
         "wall_s": wall,
         "violations": n_viol,
     });
-    let _ = std::fs::create_dir_all("/verif/evidence");
-    std::fs::write(format!("/verif/evidence/{id}.json"), serde_json::to_string_pretty(&evidence).unwrap()).expect("write evidence");
+    let edir = std::env::var("VERIF_EVIDENCE_DIR").unwrap_or_else(|_| "/verif/evidence".to_string());
+    let _ = std::fs::create_dir_all(&edir);
+    std::fs::write(format!("{edir}/{id}.json"), serde_json::to_string_pretty(&evidence).unwrap()).expect("write evidence");
     eprintln!(
         "{id} {tier}: runs={} distinct={} interleavings={} violations={} wall={:.1}s",
         agg.runs,
